@@ -621,7 +621,7 @@ func runCase(run *vkit.Run, idx int) *crashCase {
 
 func TestCheck(t *testing.T) {
 	run := vkit.New("C10", "crash", "fault_enumeration")
-	n := run.N(150, 10000)
+	n := run.N(600, 10000)
 	run.SetRule("each evaluation is one crash point: (history, operation, k) with the operation's datastore writes cut after the k-th, k enumerated exhaustively over [0, w] for every mutating operation (CreateStore, first-time OpenOrCreateStore, Put incl. checkpoint-writing and refused Puts, DeleteAll; plus every crash point of a reopen that resumes a wipe) of seeded random histories whose crash states compound; reopened with OpenStore and OpenOrCreateStore, compared with the reference pre/post state, operation repeated; distinct = distinct (operation kind, k, w, history length, keys on disk incl. leftovers, put variant, head-table size, first instance mod 1440); non-trivial = 0 < k < w")
 	run.Assume("a datastore write (Put/Delete/batch commit) is atomic and durable once it returns; a crash loses exactly the writes not yet issued",
 		"reads never fail; after the crash the same content is presented to a new process",
